@@ -97,13 +97,18 @@ pub fn nearest_f64_of_int(i: i128) -> f64 {
             top += 1;
         }
         // top <= 2^53, exact as f64; scale by 2^shift exactly
-        (top as f64) * 2f64.powi(shift as i32)
+        (top as f64) * pow2(shift)
     };
     if neg {
         -v
     } else {
         v
     }
+}
+
+/// exact power of two (Miri deliberately perturbs `powi`, so the oracle must not use it)
+pub fn pow2(e: u32) -> f64 {
+    f64::from_bits(((1023 + e as u64) & 0x7ff) << 52)
 }
 
 /// shortest compact-number width, from the README rule: 1 (zero / NaN / ±inf),
